@@ -1,4 +1,4 @@
 SPECIFICATION Spec
-CONSTANTS MaxOps = 2 Depth = 2 NViews = 1 TangBelow = 0
-INVARIANTS InvFactor InvTrivialMC InvReportsTrivial InvTof InvSetUp InvChain
+CONSTANTS MaxOps = 2 Depth = 2 NViews = 1 TangBelow = 0 ModAt = {1}
+INVARIANTS InvFactor InvTrivialMC InvReportsTrivial InvTof InvSetUp InvChain InvCurrent
 CHECK_DEADLOCK FALSE
